@@ -6,6 +6,7 @@ import math
 import numpy as np
 
 import translate_gauss
+import translate_gaussmat
 from vlib import coq
 
 from strawberryfields.backends.gaussianbackend.gaussiancircuit import GaussianModes
@@ -16,6 +17,11 @@ SIG_PATH = _os.path.join(_os.path.dirname(_os.path.dirname(_os.path.dirname(_os.
 
 def translate_gausscirc(ctx):
     translate_gauss.write(ctx)
+
+
+def translate_gaussmat_fn(ctx):
+    """whole-array methods (apply_u, scovmatxp, smeanxp) -> coq/Gen/GaussMat.v"""
+    translate_gaussmat.write(ctx)
 
 
 def cplx(z):
@@ -168,11 +174,15 @@ def correspondence_readout(ctx, n_cases, tag="ro"):
         gm.mean = np.array(a, dtype=complex)
         cases.append((n, N, M, a, gm.scovmatxp().tolist(), gm.smeanxp().tolist()))
     lines = ["From Coq Require Import List PrimFloat Bool.", "Import ListNotations.",
-             "From SFV Require Import Base.Num Base.FloatInst Base.PhaseSpace.",
+             "From SFV Require Import Base.Num Base.FloatInst Base.PhaseSpace Base.MatOps Gen.GaussMat.",
              "Definition idx (n : nat) := seq 0 n.",
-             "Definition flat_cov (n : nat) (s : st float) : list float :=",
+             "(* the hand-written read-out and the one generated from scovmatxp / smeanxp (proved equal: C01_gauss_readout_is_generated) *)",
+             "Definition flat_cov_h (n : nat) (s : st float) : list float :=",
              "  flat_map (fun q1 => flat_map (fun a => flat_map (fun q2 => map (fun b => rcov NF s q1 q2 a b) (idx n)) [false; true]) (idx n)) [false; true].",
-             "Definition flat_mean (n : nat) (s : st float) : list float := flat_map (fun q => map (fun a => rmean NF s q a) (idx n)) [false; true].",
+             "Definition flat_cov (n : nat) (s : st float) : list float :=",
+             "  flat_map (fun q1 => flat_map (fun a => flat_map (fun q2 => map (fun b => scovmatxp NF s q1 q2 a b) (idx n)) [false; true]) (idx n)) [false; true].",
+             "Definition flat_mean (n : nat) (s : st float) : list float := flat_map (fun q => map (fun a => smeanxp NF s q a) (idx n)) [false; true].",
+             "Definition flat_mean_h (n : nat) (s : st float) : list float := flat_map (fun q => map (fun a => rmean NF s q a) (idx n)) [false; true].",
              "Fixpoint all_close (l1 l2 : list float) : bool := match l1, l2 with [], [] => true | x :: t1, y :: t2 => fclose 0x1p-30%float x y && all_close t1 t2 | _, _ => false end.",
              "Definition cases : list (nat * st float * list float * list float) := ["]
     items = []
@@ -180,7 +190,7 @@ def correspondence_readout(ctx, n_cases, tag="ro"):
         flat = [x for row in cov for x in row]
         items.append("(%d, %s, %s, %s)" % (n, st_term(n, N, M, a), coq.coq_list(flat, coq.coq_float), coq.coq_list(mean, coq.coq_float)))
     lines.append(";\n".join(items) + "].")
-    lines.append("Eval vm_compute in map (fun c => match c with (n, s, cv, mn) => all_close (flat_cov n s) cv && all_close (flat_mean n s) mn end) cases.")
+    lines.append("Eval vm_compute in map (fun c => match c with (n, s, cv, mn) => all_close (flat_cov n s) cv && all_close (flat_mean n s) mn && all_close (flat_cov_h n s) cv && all_close (flat_mean_h n s) mn end) cases.")
     ok, vals, raw = ctx.coq_eval("cases_%s" % tag, "\n".join(lines))
     if not ok:
         ctx.obligation("correspondence:readout", False, raw)
@@ -229,6 +239,53 @@ def correspondence_alloc(ctx, n_cases, tag="alloc"):
     bad = []
     for c, good in zip(cases, vals[0]):
         ctx.case({"alloc": c[0], "n": c[1]}, nontrivial=c[1] >= 2, bucket="alloc-" + c[0])
+        if not good:
+            bad.append(c)
+    ctx.traces += len(cases)
+    return bad
+
+
+def correspondence_apply_u(ctx, n_cases, tag="applyu"):
+    """Gen/GaussMat.apply_u (generated from the source) against GaussianModes.apply_u on random states and random complex matrices
+    (unitary, contraction, embedded identity-outside-targets, arbitrary). Returns the failing cases (None if Coq failed)."""
+    rng = ctx.rng
+    cases = []
+    for _ in range(n_cases):
+        n = rng.randint(1, 5)
+        N, M, a = rand_state(rng, n, rng.random() < 0.6)
+        rs = np.random.RandomState(rng.randrange(2 ** 31))
+        kind = rng.choice(["arbitrary", "unitary", "embedded", "contraction"])
+        U = rs.uniform(-1, 1, (n, n)) + 1j * rs.uniform(-1, 1, (n, n))
+        if kind in ("unitary", "contraction", "embedded"):
+            q, r = np.linalg.qr(U)
+            U = q * (np.diag(r) / np.abs(np.diag(r)))
+            if kind == "contraction":
+                U = U @ np.diag(rs.uniform(0.1, 1.0, n))
+            if kind == "embedded" and n >= 2:
+                k = rng.randint(1, n - 1)
+                modes = rng.sample(range(n), k)
+                E = np.eye(n, dtype=complex)
+                E[np.ix_(modes, modes)] = U[:k, :k]
+                U = E
+        gm = GaussianModes(n)
+        gm.nmat = np.array(N, dtype=complex)
+        gm.mmat = np.array(M, dtype=complex)
+        gm.mean = np.array(a, dtype=complex)
+        gm.apply_u(U)
+        cases.append({"n": n, "kind": kind, "U": U.tolist(), "N": N, "M": M, "a": a, "out": (gm.nmat.tolist(), gm.mmat.tolist(), gm.mean.tolist())})
+    lines = ["From Coq Require Import List PrimFloat.", "Import ListNotations.",
+             "From SFV Require Import Base.Num Base.FloatInst Base.MatOps Gen.GaussMat.",
+             "Definition cases : list (st float * st float) := ["]
+    lines.append(";\n".join("((apply_u NF (mat_of %s) %s), %s)" % (mat(c["U"]), st_term(c["n"], c["N"], c["M"], c["a"]), st_term(c["n"], *c["out"])) for c in cases))
+    lines.append("].")
+    lines.append("Eval vm_compute in map (fun c => st_close 0x1p-30%float (fst c) (snd c)) cases.")
+    ok, vals, raw = ctx.coq_eval("cases_%s" % tag, "\n".join(lines))
+    if not ok:
+        ctx.obligation("correspondence:generated-gaussmat:apply_u", False, raw)
+        return None
+    bad = []
+    for c, good in zip(cases, vals[0]):
+        ctx.case({"apply_u": c["kind"], "n": c["n"]}, nontrivial=c["n"] >= 2, bucket="gen-apply_u-" + c["kind"])
         if not good:
             bad.append(c)
     ctx.traces += len(cases)
